@@ -176,6 +176,9 @@ void generatePlan(uint64_t seed, const GenOptions &opt, Plan &P)
             // identity (relations) reduction only
             f.red = f.rel ? 2 : 0;
             if (f.kind == FK_EVP && !f.rel && R.chance(1, 3)) f.red = 1;
+            // EV+ relation forests also exist fully- and quasi-reduced; the copy profile draws them
+            // (copies from MT relations of the same rule go through the relation-node path of copy_MT)
+            if (f.kind == FK_EVP && f.rel && pr == "C10" && R.chance(1, 2)) f.red = int(R.below(2));
         }
         if (pr == "C20" && f.rel) f.red = R.chance(1, 2) ? 2 : 1;
         if (pr == "C20" && !f.rel && R.chance(2, 3)) f.red = 1;     // KF-C20-1: quasi-reduced sets carry the gating runs
